@@ -164,4 +164,6 @@ def harnesses(tier):
     import C08
     bz = C08.bzip2_harness(tier); bz.name = 'bzip2_compressor_complete'
     hs.append(bz)
+    gzh = [h for h in C08.harnesses(tier) if h.name == 'gzip_compressor'][0]; gzh.name = 'gzip_compressor_complete'
+    hs.append(gzh)
     return hs
